@@ -453,4 +453,301 @@ theorem lcm_spec (thr : Nat) (hthr : 1 ≤ thr) (fuel : Nat) (A B : List K) (hf 
           · rw [h1, h2] at hl; rw [h1]; exact hl
           · rw [h1, h2] at hl; rw [h1]; exact isLcmOf_swap _ _ _ hl
 
+/-! ### `modin`: the in-place long division -/
+
+theorem toPoly_append_zero (L : List K) : toPoly (L ++ [0]) = toPoly L := by
+  rw [toPoly_append]; simp
+
+theorem toPoly_append_dropWhile_reverse (A cs : List K) :
+    toPoly (A ++ (cs.dropWhile (fun c => decide (c = 0))).reverse) = toPoly (A ++ cs.reverse) := by
+  induction cs with
+  | nil => simp
+  | cons c cs ih =>
+    by_cases hc : c = 0
+    · have : (c :: cs).dropWhile (fun c => decide (c = 0)) = cs.dropWhile (fun c => decide (c = 0)) := by
+        simp [List.dropWhile, hc]
+      rw [this, ih, List.reverse_cons, ← List.append_assoc, hc, toPoly_append_zero]
+    · have : (c :: cs).dropWhile (fun c => decide (c = 0)) = c :: cs := by
+        simp [List.dropWhile, hc]
+      rw [this]
+
+theorem toPoly_zipWith_reverse (l : K) : ∀ (U V : List K), U.length = V.length →
+    toPoly (List.zipWith (fun a b => a - l * b) U V).reverse = toPoly U.reverse - C l * toPoly V.reverse
+  | [], [], _ => by simp
+  | [], _ :: _, h => by simp at h
+  | _ :: _, [], h => by simp at h
+  | u :: U, v :: V, h => by
+    have hl : U.length = V.length := by simpa using h
+    have hz : (List.zipWith (fun a b => a - l * b) U V).length = U.length := by
+      simp [List.length_zipWith, hl]
+    simp only [List.zipWith_cons_cons, List.reverse_cons, toPoly_append, List.length_reverse, toPoly_cons, toPoly_nil,
+      mul_zero, add_zero]
+    rw [toPoly_zipWith_reverse l U V hl, hz, hl, C_sub, C_mul]
+    ring
+
+/-- one round: the window's polynomial loses `l·X^(|w|-|B|)·B`, and the window gets shorter -/
+theorem modinStep_spec (b0 : K) (bt : List K) (hb0 : b0 ≠ 0) (w : List K) (hw : bt.length + 1 ≤ w.length) :
+    (modinStep b0 bt w).length < w.length ∧
+    ∃ q : K[X], toPoly (modinStep b0 bt w).reverse = toPoly w.reverse - q * toPoly (b0 :: bt).reverse := by
+  cases w with
+  | nil => simp at hw
+  | cons w0 wt =>
+    simp only [modinStep]
+    have hlen : bt.length ≤ wt.length := by simpa using hw
+    constructor
+    · have h1 := (List.dropWhile_sublist (fun c => decide (c = 0)) (l := List.zipWith (fun a b => a - w0 / b0 * b) wt bt)).length_le
+      simp only [List.length_append, List.length_drop, List.length_cons, List.length_zipWith] at h1 ⊢
+      omega
+    · refine ⟨C (w0 / b0) * X ^ (wt.length - bt.length), ?_⟩
+      rw [List.reverse_append, toPoly_append_dropWhile_reverse, ← List.reverse_append]
+      -- cs ++ rest, with cs over the first |bt| entries of wt
+      have hz : List.zipWith (fun a b => a - w0 / b0 * b) wt bt
+          = List.zipWith (fun a b => a - w0 / b0 * b) (wt.take bt.length) bt := by
+        rw [List.zipWith_eq_zipWith_take_min]; simp [Nat.min_eq_right hlen]
+      rw [hz, List.reverse_append, toPoly_append, List.length_reverse, List.length_drop,
+        toPoly_zipWith_reverse _ _ _ (by rw [List.length_take]; omega)]
+      have hwt : toPoly wt.reverse = toPoly (wt.drop bt.length).reverse
+          + X ^ (wt.length - bt.length) * toPoly (wt.take bt.length).reverse := by
+        conv_lhs => rw [← List.take_append_drop bt.length wt]
+        rw [List.reverse_append, toPoly_append, List.length_reverse, List.length_drop]
+      simp only [List.reverse_cons, toPoly_append, List.length_reverse, toPoly_cons, toPoly_nil, mul_zero, add_zero]
+      rw [hwt]
+      have hc : (C w0 : K[X]) = C (w0 / b0) * C b0 := by rw [← C_mul, div_mul_cancel₀ w0 hb0]
+      have hx : (X : K[X]) ^ wt.length = X ^ (wt.length - bt.length) * X ^ bt.length := by
+        rw [← pow_add]; congr 1; omega
+      rw [hc, hx]
+      ring
+
+theorem modinLoop_spec (b0 : K) (bt : List K) (hb0 : b0 ≠ 0) :
+    ∀ (fuel : Nat) (w : List K), w.length + 1 ≤ fuel + (bt.length + 1) ∨ w.length ≤ fuel →
+      (modinLoop b0 bt fuel w).length ≤ bt.length ∧
+      ∃ q : K[X], toPoly (modinLoop b0 bt fuel w).reverse = toPoly w.reverse - q * toPoly (b0 :: bt).reverse := by
+  intro fuel
+  induction fuel with
+  | zero =>
+    intro w h
+    refine ⟨by simp only [modinLoop]; omega, 0, by simp [modinLoop]⟩
+  | succ fuel ih =>
+    intro w h
+    unfold modinLoop
+    split
+    · next hge =>
+      obtain ⟨hl, q1, hq1⟩ := modinStep_spec b0 bt hb0 w hge
+      obtain ⟨hl2, q2, hq2⟩ := ih (modinStep b0 bt w) (by omega)
+      exact ⟨hl2, q1 + q2, by rw [hq2, hq1]; ring⟩
+    · next hlt => exact ⟨by omega, 0, by simp⟩
+
+theorem mod_unique (a b r : K[X]) (hb : b ≠ 0) (hd : b ∣ a - r) (hdeg : r.degree < b.degree) : r = a % b := by
+  have h1 : b ∣ a % b - r := by
+    have : a % b - r = (a - r) - b * (a / b) := by rw [EuclideanDomain.mod_eq_sub_mul_div]; ring
+    rw [this]; exact dvd_sub hd (dvd_mul_right _ _)
+  have h2 : (a % b - r).degree < b.degree :=
+    lt_of_le_of_lt (degree_sub_le _ _) (max_lt (degree_mod_lt _ hb) hdeg)
+  have := eq_zero_of_dvd_of_degree_lt h1 h2
+  exact (sub_eq_zero.mp this).symm
+
+/-- Tier B `modin_exact`: `modin(A,B)` leaves `A mod B` in `A`, for every `A` and every non-zero `B` (any storage) -/
+theorem toPoly_modin (A B : List K) (hb : toPoly B ≠ 0) : toPoly (modin A B) = toPoly A % toPoly B := by
+  unfold modin
+  have hne := (setdegree_ne_nil_iff B).mpr hb
+  have hrev : (setdegree B).reverse ≠ [] := by simpa using hne
+  cases hB : (setdegree B).reverse with
+  | nil => exact absurd hB hrev
+  | cons b0 bt =>
+    simp only
+    have hBn : setdegree B = (b0 :: bt).reverse := by rw [← hB, List.reverse_reverse]
+    have hb0 : b0 ≠ 0 := by
+      have hn := setdegree_normal B
+      rw [hBn] at hn
+      simpa [Normal, eq_comm] using hn
+    have tB : toPoly (b0 :: bt).reverse = toPoly B := by rw [← hBn, toPoly_setdegree]
+    obtain ⟨hl, q, hq⟩ := modinLoop_spec b0 bt hb0 (A.length + 1) (setdegree A).reverse
+      (Or.inr (by have := length_setdegree_le A; simp only [List.length_reverse]; omega))
+    rw [toPoly_setdegree]
+    rw [List.reverse_reverse, toPoly_setdegree, tB] at hq
+    apply mod_unique _ _ _ hb
+    · exact ⟨q, by rw [hq]; ring⟩
+    · -- fewer than |B| coefficients
+      have hm := natDegree_toPoly B hb
+      rw [hBn] at hm
+      simp only [List.length_reverse, List.length_cons, Nat.add_sub_cancel] at hm
+      rw [degree_eq_natDegree hb, hm]
+      rw [degree_lt_iff_coeff_zero]
+      intro m hm'
+      rw [coeff_toPoly]
+      exact getD_of_le _ _ (by rw [List.length_reverse]; omega)
+
+/-! ### `powmod` -/
+
+theorem toPoly_mod (thr : Nat) (hthr : 1 ≤ thr) (A B : List K) (hb : toPoly B ≠ 0) :
+    toPoly (Model.Poly.mod thr A B) = toPoly A % toPoly B := by
+  unfold Model.Poly.mod; exact (toPoly_divmod thr hthr A B hb).2
+
+theorem dvd_pow_sub_pow (u x y : K[X]) (h : u ∣ x - y) (k : Nat) : u ∣ x ^ k - y ^ k := by
+  induction k with
+  | zero => simp
+  | succ k ih =>
+    have : x ^ (k + 1) - y ^ (k + 1) = x ^ k * (x - y) + (x ^ k - y ^ k) * y := by ring
+    rw [this]; exact dvd_add (dvd_mul_of_dvd_right h _) (dvd_mul_of_dvd_left ih _)
+
+theorem dvd_mod_sub (a u : K[X]) : u ∣ a % u - a := by
+  have : a % u - a = -(u * (a / u)) := by rw [EuclideanDomain.mod_eq_sub_mul_div]; ring
+  rw [this]; exact (dvd_neg).mpr (dvd_mul_right _ _)
+
+theorem powmodLoop_spec (thr : Nat) (hthr : 1 ≤ thr) (U : List K) (hu : toPoly U ≠ 0) :
+    ∀ (fuel n : Nat) (W Pw : List K), n + 1 ≤ fuel → (toPoly W).degree < (toPoly U).degree →
+      (toPoly (powmodLoop thr U fuel n W Pw)).degree < (toPoly U).degree ∧
+      toPoly U ∣ toPoly (powmodLoop thr U fuel n W Pw) - toPoly W * toPoly Pw ^ n := by
+  intro fuel
+  induction fuel with
+  | zero => intro n W Pw h; omega
+  | succ fuel ih =>
+    intro n W Pw hf hW
+    unfold powmodLoop
+    split
+    · next h0 => subst h0; exact ⟨hW, by simp⟩
+    · next h0 =>
+      extract_lets W'
+      have hW' : (toPoly W').degree < (toPoly U).degree ∧
+          toPoly U ∣ toPoly W' - toPoly W * toPoly Pw ^ (n % 2) := by
+        simp only [W']
+        split
+        · next h1 =>
+          rw [toPoly_modin _ _ hu]
+          refine ⟨degree_mod_lt _ hu, ?_⟩
+          simp only [mulin, assign]; rw [toPoly_setdegree, toPoly_mul, h1, pow_one]
+          exact dvd_mod_sub _ _
+        · next h1 =>
+          have : n % 2 = 0 := by omega
+          rw [this, pow_zero, mul_one, sub_self]; exact ⟨hW, dvd_zero _⟩
+      have tS : toPoly (Model.Poly.mod thr (sqr thr Pw) U) = (toPoly Pw * toPoly Pw) % toPoly U := by
+        rw [toPoly_mod thr hthr _ U hu, toPoly_sqr thr hthr]
+      obtain ⟨hd, hdvd⟩ := ih (n / 2) W' (Model.Poly.mod thr (sqr thr Pw) U) (by omega) hW'.1
+      refine ⟨hd, ?_⟩
+      rw [tS] at hdvd
+      have hp : n = 2 * (n / 2) + n % 2 := (Nat.div_add_mod n 2).symm
+      have h2 : toPoly U ∣ ((toPoly Pw * toPoly Pw) % toPoly U) ^ (n / 2) - (toPoly Pw * toPoly Pw) ^ (n / 2) :=
+        dvd_pow_sub_pow _ _ _ (dvd_mod_sub _ _) _
+      have e : toPoly (powmodLoop thr U fuel (n / 2) W' (Model.Poly.mod thr (sqr thr Pw) U)) - toPoly W * toPoly Pw ^ n
+          = (toPoly (powmodLoop thr U fuel (n / 2) W' (Model.Poly.mod thr (sqr thr Pw) U))
+              - toPoly W' * ((toPoly Pw * toPoly Pw) % toPoly U) ^ (n / 2))
+            + toPoly W' * (((toPoly Pw * toPoly Pw) % toPoly U) ^ (n / 2) - (toPoly Pw * toPoly Pw) ^ (n / 2))
+            + (toPoly W' - toPoly W * toPoly Pw ^ (n % 2)) * (toPoly Pw * toPoly Pw) ^ (n / 2) := by
+        have hpow : toPoly Pw ^ n = (toPoly Pw * toPoly Pw) ^ (n / 2) * toPoly Pw ^ (n % 2) := by
+          conv_lhs => rw [hp]
+          rw [pow_add, pow_mul, pow_two]
+        rw [hpow]; ring
+      rw [e]
+      exact dvd_add (dvd_add hdvd (dvd_mul_of_dvd_right h2 _)) (dvd_mul_of_dvd_left hW'.2 _)
+
+/-- Tier B `powmod_exact`: `powmod(W,P,n,U)` is `P^n mod U` for every exponent `n ≥ 0` of any size, every `P`, every
+    non-zero `U`, every threshold ≥ 1 -/
+theorem toPoly_powmod (thr : Nat) (hthr : 1 ≤ thr) (P : List K) (n : Nat) (U : List K) (hu : toPoly U ≠ 0) :
+    toPoly (Model.Poly.powmod thr P n U) = (toPoly P ^ n) % toPoly U := by
+  unfold Model.Poly.powmod
+  rw [toPoly_setdegree]
+  have t1 : toPoly (Model.Poly.mod thr [1] U) = 1 % toPoly U := by
+    rw [toPoly_mod thr hthr _ U hu]; simp
+  have tP : toPoly (Model.Poly.mod thr P U) = toPoly P % toPoly U := toPoly_mod thr hthr _ U hu
+  obtain ⟨hd, hdvd⟩ := powmodLoop_spec thr hthr U hu (n + 1) n (Model.Poly.mod thr [1] U) (Model.Poly.mod thr P U)
+    (le_refl _) (by rw [t1]; exact degree_mod_lt _ hu)
+  apply mod_unique _ _ _ hu ?_ hd
+  rw [t1, tP] at hdvd
+  have h1 : toPoly U ∣ (toPoly P % toPoly U) ^ n - toPoly P ^ n := dvd_pow_sub_pow _ _ _ (dvd_mod_sub _ _) _
+  have h0 : toPoly U ∣ (1 : K[X]) % toPoly U - 1 := dvd_mod_sub _ _
+  set r := toPoly (powmodLoop thr U (n + 1) n (Model.Poly.mod thr [1] U) (Model.Poly.mod thr P U)) with hr
+  have e : toPoly P ^ n - r = -(r - 1 % toPoly U * (toPoly P % toPoly U) ^ n)
+      - (1 % toPoly U) * ((toPoly P % toPoly U) ^ n - toPoly P ^ n)
+      - (1 % toPoly U - 1) * toPoly P ^ n := by ring
+  rw [e]
+  exact dvd_sub (dvd_sub ((dvd_neg).mpr hdvd) (dvd_mul_of_dvd_right h1 _)) (dvd_mul_of_dvd_left h0 _)
+
+/-! ### `invmodunit` -/
+
+theorem invmodunitLoop_spec (thr : Nat) (hthr : 1 ≤ thr) (a b : K[X]) :
+    ∀ (fuel : Nat) (F G S0 S1 : List K),
+      b ∣ toPoly S0 * a - toPoly F → b ∣ toPoly S1 * a - toPoly G →
+      (∀ D : K[X], D ∣ toPoly F → D ∣ toPoly G → D ∣ a ∧ D ∣ b) →
+      (setdegree G).length + 1 ≤ fuel →
+      ∃ (Us : List K) (f : K[X]), invmodunitLoop thr fuel F G S0 S1 = some Us ∧
+        b ∣ toPoly Us * a - f ∧ f ∣ a ∧ f ∣ b := by
+  intro fuel
+  induction fuel with
+  | zero => intro F G S0 S1 _ _ _ h; omega
+  | succ fuel ih =>
+    intro F G S0 S1 h0 h1 hd hf
+    unfold invmodunitLoop
+    split
+    · next hz =>
+      have hG : toPoly G = 0 := (isZero_iff G).mp hz
+      have := hd (toPoly F) (dvd_refl _) (by rw [hG]; exact dvd_zero _)
+      exact ⟨S0, toPoly F, rfl, h0, this.1, this.2⟩
+    · next hz =>
+      extract_lets QR
+      have hg : toPoly G ≠ 0 := fun h => hz ((isZero_iff G).mpr h)
+      obtain ⟨tQ, tR⟩ := toPoly_divmod thr hthr F G hg
+      have hlen : (setdegree (assign QR.2)).length < (setdegree G).length := by
+        apply plen_lt_of_degree_lt _ G hg
+        simp only [assign]; rw [toPoly_setdegree, tR]; exact degree_mod_lt _ hg
+      have hmod : toPoly F % toPoly G = toPoly F - toPoly G * (toPoly F / toPoly G) :=
+        EuclideanDomain.mod_eq_sub_mul_div _ _
+      apply ih _ _ _ _ ?_ ?_ ?_ (by omega)
+      · simp only [assign]; rw [toPoly_setdegree, toPoly_setdegree]; exact h1
+      · simp only [assign]
+        rw [toPoly_setdegree, toPoly_setdegree, toPoly_sub, toPoly_mul, tQ, tR, hmod]
+        have : (toPoly S0 - toPoly F / toPoly G * toPoly S1) * a - (toPoly F - toPoly G * (toPoly F / toPoly G))
+            = (toPoly S0 * a - toPoly F) - (toPoly F / toPoly G) * (toPoly S1 * a - toPoly G) := by ring
+        rw [this]; exact dvd_sub h0 (dvd_mul_of_dvd_right h1 _)
+      · intro D hD1 hD2
+        simp only [assign] at hD1 hD2
+        rw [toPoly_setdegree] at hD1 hD2
+        rw [tR] at hD2
+        have hDF : D ∣ toPoly F := by
+          have : toPoly F = toPoly F % toPoly G + toPoly G * (toPoly F / toPoly G) := by rw [hmod]; ring
+          rw [this]; exact dvd_add hD2 (dvd_mul_of_dvd_left hD1 _)
+        exact hd D hDF hD1
+
+/-- Tier B `invmodunit_exact`: for a non-zero modulus and coprime operands the result `U` satisfies
+    `U·A ≡ e (mod B)` with `e` a non-zero constant -/
+theorem invmodunit_spec (thr : Nat) (hthr : 1 ≤ thr) (fuel : Nat) (A B : List K) (hf : B.length + 1 ≤ fuel)
+    (hb : toPoly B ≠ 0) (hcop : ∀ E : K[X], E ∣ toPoly A → E ∣ toPoly B → E ∣ 1) :
+    ∃ (Us : List K) (e : K), Model.Poly.invmodunit thr fuel A B = some Us ∧ e ≠ 0 ∧
+      toPoly B ∣ toPoly Us * toPoly A - C e := by
+  have unit_const : ∀ f : K[X], f ∣ 1 → ∃ e : K, e ≠ 0 ∧ f = C e := by
+    intro f hf1
+    obtain ⟨r, hr, hC⟩ := Polynomial.isUnit_iff.mp (isUnit_of_dvd_one hf1)
+    exact ⟨r, hr.ne_zero, hC.symm⟩
+  unfold Model.Poly.invmodunit
+  split
+  · next hc =>
+    have t1 : toPoly (assignC (1 : K)) = 1 := by rw [toPoly_assignC]; simp
+    by_cases hA : Model.Poly.degree A ≤ 0
+    · by_cases hA0 : toPoly A = 0
+      · have hu : toPoly B ∣ 1 := hcop _ (by rw [hA0]; exact dvd_zero _) (dvd_refl _)
+        exact ⟨_, 1, rfl, one_ne_zero, dvd_trans hu (one_dvd _)⟩
+      · have hd : Model.Poly.degree A = 0 := by
+          have : ¬ Model.Poly.degree A < 0 := fun h => hA0 ((degree_neg_iff A).mp h)
+          omega
+        obtain ⟨c, hc0, hAc, _⟩ := degree_zero_elim A hd
+        exact ⟨_, c, rfl, hc0, by rw [t1, hAc]; simp⟩
+    · have hB : Model.Poly.degree B ≤ 0 := hc.resolve_left hA
+      have hd : Model.Poly.degree B = 0 := by
+        have : ¬ Model.Poly.degree B < 0 := fun h => hb ((degree_neg_iff B).mp h)
+        omega
+      obtain ⟨c, hc0, hBc, _⟩ := degree_zero_elim B hd
+      refine ⟨_, 1, rfl, one_ne_zero, ?_⟩
+      rw [hBc]
+      exact ⟨C c⁻¹ * (toPoly (assignC (1 : K)) * toPoly A - C 1), by rw [← mul_assoc, ← C_mul, mul_inv_cancel₀ hc0]; simp⟩
+  · next hc =>
+    obtain ⟨Us, f, hres, hdvd, hfa, hfb⟩ := invmodunitLoop_spec thr hthr (toPoly A) (toPoly B) fuel
+      (assign A) (assign B) (assign [1]) (assign [])
+      (by simp only [assign]; rw [toPoly_setdegree, toPoly_setdegree]; simp)
+      (by simp only [assign]; rw [toPoly_setdegree, toPoly_setdegree]; simp)
+      (by intro D h1 h2; simp only [assign] at h1 h2; rw [toPoly_setdegree] at h1 h2; exact ⟨h1, h2⟩)
+      (by have h1 := length_setdegree_le (assign B); have h2 := length_setdegree_le B
+          have h3 : (assign B).length = (setdegree B).length := rfl
+          omega)
+    obtain ⟨e, he, hfe⟩ := unit_const f (hcop f hfa hfb)
+    exact ⟨Us, e, hres, he, by rw [← hfe]; exact hdvd⟩
+
 end Givaro.Lemmas.Poly
